@@ -104,7 +104,8 @@ def cases(draw):
     ops = [[draw(st.sampled_from(['d', 'd', 'd', 'r', 'p', 'c'])), draw(st.integers(0, 255)), draw(st.integers(0, 255))]
            for _ in range(draw(st.integers(0, 30)))]
     queries = draw(st.lists(st.sampled_from(['queue', 'pop', 'pop-twice', 'pop-unknown']), max_size=6))
-    return {'mtu': mtu, 'sends': sends, 'ops': ops, 'queries': queries, 'poll': draw(st.booleans())}
+    poll = draw(st.one_of(st.booleans(), st.sampled_from([0, 1, 60000, 2 ** 31 - 1, 2 ** 31, 2 ** 40]).map(lambda v: {'interval': v})))
+    return {'mtu': mtu, 'sends': sends, 'ops': ops, 'queries': queries, 'poll': poll}
 
 
 # --- execution ------------------------------------------------------------------------------
@@ -153,7 +154,9 @@ def execute(case, out):
         bid = ag.call('send_bundle_data', dbus.ByteArray(data), dbus.Dictionary({'address': RECV[0], 'port': RECV[1]}, signature='sv'))
         originals.append((send['peer'], bid, data))
     if case.get('poll'):
-        poll_cfg = udpcl.config.PollConfig(address=RECV[0], port=RECV[1], interval_ms=60000)
+        # poll may be True or a dict with the listen interval the sender is configured with
+        interval = case['poll'].get('interval', 60000) if isinstance(case['poll'], dict) else 60000
+        poll_cfg = udpcl.config.PollConfig(address=RECV[0], port=RECV[1], interval_ms=int(interval))
         ag = senders[1]
         simudp.NET.current_host = ag.host
         simudp.NET.current_owner = ag.name
